@@ -122,6 +122,12 @@ bool XMLFormatter::inEscapeList(const XMLFormatter::EscapeFlags escStyle
         {
             return true;
         }
+        //  A literal #x85 or #x2028 is turned into #xA when an XML 1.1
+        //  document is parsed (2.11), so they only survive as references.
+        else if ((toCheck == chNEL) || (toCheck == chLineSeparator))
+        {
+            return true;
+        }
         else
         {
             return false;
